@@ -285,7 +285,9 @@ def execute(cases, deadline, progress):
     results = Pool(PROP, "jit", case_timeout=900).map(cases, deadline, progress)
     order = list(range(len(cases)))[::-1]
     sub = [dict(cases[i], ref_only=True) for i in order]
-    other = Pool(PROP, "jit", nworkers=2, case_timeout=600).map(sub, deadline)  # few processes: each one sees many different requests
+    # few processes: each one sees many different requests; and another string-hash seed than the first set of processes, so that a
+    # result that follows the iteration order of a set or of hashed keys differs as well
+    other = Pool(PROP, "jit", nworkers=2, case_timeout=600, extra_env={"PYTHONHASHSEED": "4242"}).map(sub, deadline)
     for i, r2 in zip(order, other):
         r1 = results[i]
         if not r1 or not r2 or "ref_digest" not in r1 or "ref_digest" not in r2:
